@@ -43,6 +43,10 @@ def gen(tier, rng, boost=1):
             for off in offs:
                 ops.append(f"fault.io {sc} {off}")
     ops += ["fault.midsave csv_ragged_mem", "fault.midsave csv_ragged_stream", "fault.midsave json_nan"]
+    # output streams that are already in a failed state (failbit only)
+    for arch in ("mp", "json", "xml", "csv"):
+        for st in ("fail", "eof", "unopened"):
+            ops.append(f"fault.preset {arch} {st}")
     # options the library itself rejects while the root scope is being set up (exception expected, nothing leaked)
     seps = list(range(1, 128)) if not q else sorted({44, 59, 9, 32, 124, 120, 58, 35, 34, 10, 13, 65, 48, 46, 1, 127} | set(rng.sample(range(1, 128), 8)))
     for sc in ("csv_load_mem", "csv_load_stream", "csv_save_mem", "csv_save_stream"):
